@@ -193,11 +193,40 @@ def scenarios(tier):
     for name, ops in pairs(tier):
         for init in ("cold", "warm"):
             add(name, ops, init, "sync", 2 if quick else 3)
+    # all interleavings, no bound, with the sleep-set reduction (separate processes only): every curated pair on a warm
+    # cache, and on a cold cache where the number of traces stays small (the rest in the thorough tier)
+    # (on a cold cache every mkdir succeeds and is a write to an ancestor of everything below it: two writers then have
+    # > 10^5 classes, so the writer-writer pairs stay preemption-bounded there)
+    writer_pairs = {"writers-same-key", "writers-same-key-same-content", "writers-different-keys-identical-content", "writers-sibling-keys", "writers-sibling-content"}
+    mid_cold = {"remove-vs-remove", "write-vs-remove", "write_hash-vs-write_hash"}   # 10^3 - 10^4 classes: thorough tier
+    for name, ops in pairs("quick"):
+        add(name, ops, "warm", "sync", None, por=True)
+        if name not in writer_pairs and (not quick or name not in mid_cold):
+            add(name, ops, "cold", "sync", None, por=True)
+    # the reduction is validated inside the check: these short pairs are ALSO explored by brute force (no bound, no
+    # reduction); the sets of distinct results (replies + final tree) must coincide, else the run ends as a machinery error
+    byname_q = dict(pairs("quick"))
+    for nm in ("remove-vs-remove", "write-vs-remove_hash", "write_hash-vs-exists", "remove_hash-vs-remove_hash", "remove_hash-vs-exists") + \
+            (() if quick else ("write-vs-remove", "write-vs-read", "write-vs-metadata", "remove-vs-read", "remove-vs-list")):
+        add(nm, byname_q[nm], "warm", "sync", None)
     if quick:
         for name, ops in pairs("quick")[:4]:
             add(name, ops, "warm", "sync", 1, threads=True)
         add("writers-same-key", pairs("quick")[0][1], "warm", "astd", 1)
+        add("writers-same-key", pairs("quick")[0][1], "warm", "astd", None, por=True)
+        add("writers-same-key", pairs("quick")[0][1], "warm", "tok", None, por=True)
     else:
+        cur_names = {n_ for n_, _ in pairs("quick")}
+        for name, ops in pairs("thorough"):
+            if name not in cur_names:
+                add(name, ops, "warm", "sync", None, por=True)
+                if not (ops[0][0] in ("write", "write_hash") and ops[1][0] in ("write", "write_hash")):
+                    add(name, ops, "cold", "sync", None, por=True)
+        for name, ops in pairs("quick"):
+            add(name, ops, "warm", "astd", None, por=True)
+            add(name, ops, "warm", "tok", None, por=True)
+        for name, ops in triples():
+            add(name, ops, "warm", "sync", None, por=True)
         for name, ops in triples():
             for init in ("cold", "warm"):
                 add(name, ops, init, "sync", 2 if init == "warm" else 1)
@@ -207,8 +236,6 @@ def scenarios(tier):
             add(name, ops, "warm", "tok", 1)
         # unbounded (all interleavings, no preemption bound) for the short conflicting pairs on a warm cache
         byname = dict(pairs("quick"))
-        for nm in ("remove-vs-remove", "write-vs-remove", "write-vs-read", "write-vs-metadata", "write-vs-remove_hash", "write_hash-vs-exists", "remove-vs-read", "remove-vs-list"):
-            add(nm, byname[nm], "warm", "sync", None)
         # the two-writer conflicts (11 + 11 steps on a warm cache = C(22,11) = 705 432 interleavings): one of them
         # completely (no bound, brute force: no partial-order reduction is implemented), the other at bound 4
         add("writers-same-key", byname["writers-same-key"], "warm", "sync", None)
@@ -321,14 +348,26 @@ def worker(ctx, job):
                 break   # for triples the first explaining order is enough (6 permutations x observation vector)
             continue
         last_diff = scratch["violations"][0]
-    if os.environ.get("VERIF_C07_EXPERIMENT"):
+    if sc["bound"] is None and not sc["threads"]:
         import re as _re
-        fp = V.h(fsutil.canon(fsutil.snapshot(cache)), _re.sub(r"\d{13,}", "T", json.dumps(replies, sort_keys=True)))
-        res["extra"]["fp:%s" % sc["name"]] = [fp]
+        snap_fp = {}
+        for rel_, e_ in (fsutil.snapshot(cache) or {}).items():
+            if e_[0] == "f" and rel_.startswith(ref.INDEX_DIR + "/"):
+                # wall-clock digits and the checksums computed over them are not results (they differ from run to run)
+                e_ = ("f", _re.sub(rb"\d{13,}", b"T", _re.sub(rb"[0-9a-f]{64}", b"H", e_[1])))
+            snap_fp[rel_] = e_
+        fp = V.h(sorted((k_, v_) for k_, v_ in snap_fp.items() if not k_.startswith("tmp/")), _re.sub(r"\d{13,}", "T", json.dumps(replies, sort_keys=True).replace(cache, "<cache>")))
+        res["extra"]["fp:%s|%s|%s" % (sc["name"], sc["init"], sc["flavour"])] = [fp]
+        if rep["status"] == "ok" and sc["flavour"] == "sync":
+            # the class of this interleaving under the dependence relation (validation of the reduction, see main)
+            idirs_ = {cache} | {os.path.join(cache, r_) for r_, e_ in (init_snap or {}).items() if e_[0] == "d"}
+            st_ = [s_ for s_ in rep["steps"] if s_.get("step") is not None]
+            res["extra"]["tc:%s|%s|%s" % (sc["name"], sc["init"], sc["flavour"])] = [V.h(fsx.canonical_trace(rep["decisions"], st_, [cache], idirs_))]
     outcome = "explained-by-serial-order:%s" % ("+".join(all_accepted) if all_accepted else "NONE")
     V.outcome(res, outcome)
     res["distinct"].add(V.h(sc["id"], tuple(d["chosen"] for d in rep["decisions"])))
     res["extra"]["outcome:%s:%s" % (sc["name"], outcome)] = 1
+    res["extra"]["n:%s (%s, %s%s)" % (sc["name"], sc["init"], sc["flavour"], ", threads" if sc["threads"] else "")] = 1
     if accepted is None:
         what = "replies %s and final state match no sequential order of %s" % ([short(r) for r in replies], sc["ops"])
         if order_ran is not None:
@@ -337,7 +376,7 @@ def worker(ctx, job):
     if sc.get("por"):
         init_dirs = {cache} | {os.path.join(cache, r_) for r_, e_ in (init_snap or {}).items() if e_[0] == "d"}
         steps_ = [s_ for s_ in rep["steps"] if s_.get("step") is not None]
-        res["children"] = [(p, [list(x) for x in tr[:len(p) - 1]], sl) for p, sl in fsx.children_sleep(rep["decisions"], steps_, len(job["prefix"]), job.get("sleep"), init_dirs)]
+        res["children"] = [(p, [list(x) for x in tr[:len(p) - 1]], sl) for p, sl in fsx.children_sleep(rep["decisions"], steps_, len(job["prefix"]), job.get("sleep"), init_dirs, [cache])]
     else:
         res["children"] = [(p, [list(x) for x in tr[:len(p) - 1]], None) for p in fsx.children(rep["decisions"], len(job["prefix"]), sc["bound"])]
     res["nsteps"] = len(tr)
@@ -415,26 +454,36 @@ def main(tier, seed=0):
             outcomes_per_sc.setdefault(name, {})[oc] = agg["extra"].pop(k)
     for k in [k_ for k_ in agg["extra"] if k_.startswith("fp:")]:
         agg["extra"].pop(k)     # _acc merges list-valued extras too; the sets are kept in fps
-    if fps:
+    if fps and not capped:
         val = {}
         for k, v in sorted(fps.items()):
-            nm = k[3:]
-            if nm.endswith("/por") and ("fp:" + nm[:-4]) in fps:
-                full = fps["fp:" + nm[:-4]]
-                val[nm[:-4]] = {"distinct_results_brute_force": len(full), "distinct_results_reduced": len(v), "same_set": full == v}
-            elif not nm.endswith("/por") and ("fp:" + nm + "/por") not in fps:
-                val[nm] = {"distinct_results": len(v)}
-            elif nm.endswith("/por"):
-                val[nm] = {"distinct_results_reduced": len(v)}
-        agg["extra"]["por_validation"] = val
+            if not k.startswith("fp:"):
+                continue
+            nm, init_, fl_ = k[3:].split("|")
+            twin = "fp:%s/por|%s|%s" % (nm, init_, fl_)
+            if not nm.endswith("/por") and twin in fps:
+                red = fps[twin]
+                tcb, tcr = fps.get("tc:" + k[3:], set()), fps.get("tc:" + twin[3:], set())
+                val["%s (%s, %s)" % (nm, init_, fl_)] = {"distinct_results_brute_force": len(v), "distinct_results_reduced": len(red), "same_result_set": red == v,
+                                                       "interleaving_classes_brute_force": len(tcb), "interleaving_classes_reduced": len(tcr), "same_class_set": tcb == tcr}
+                if red != v:
+                    merr.append("sleep-set reduction disagrees with brute force on %s (%s cache): %d vs %d distinct results" % (nm, init_, len(red), len(v)))
+                if tcb != tcr:
+                    merr.append("sleep-set reduction misses interleaving classes on %s (%s cache): brute force saw %d, reduced search %d (%d missing)" % (
+                        nm, init_, len(tcb), len(tcr), len(tcb - tcr)))
+        agg["extra"]["reduction_validated_against_brute_force"] = val
+    agg["extra"]["schedules_per_scenario"] = {k[2:]: agg["extra"].pop(k) for k in sorted(k_ for k_ in agg["extra"] if k_.startswith("n:"))}
     single = sorted(n for n, o in outcomes_per_sc.items() if len(o) == 1)
     agg["extra"].update({"scenarios": len(scs), "serial_orders_per_scenario": outcomes_per_sc, "scenarios_with_one_outcome_only": single,
                          "preemption_bounds": sorted({str(s["bound"]) for s in scs})})
     return R.finish(PROP, tier, agg, merr, time.time() - t0, level="model_checking",
-                    rule="state space = all interleavings, at file-system system-call granularity, of 2-3 real library processes (or threads) per scenario up to the scenario's "
-                         "preemption bound; one evaluation = one complete schedule executed on the real code; distinct = distinct schedules; non-trivial: arguments are forced "
-                         "to collide (same key, identical content, sibling index/content directories, reader/remover of the thing being written)",
-                    technique="stateless model checking of the implementation: preemption-bounded exhaustive schedule enumeration under a ptrace scheduler (fsx), serialisability oracle against the dictionary model",
-                    assumptions=["one file-system system call is the atomic step (the property's own granularity)", "clear and remove_fully are excluded by the property",
+                    rule="state space = all interleavings, at file-system system-call granularity, of 2-3 real library processes (or threads) per scenario; scenarios named */por: "
+                         "ALL interleavings without a bound, one execution per class of interleavings that differ only in the order of adjacent independent steps (sleep sets; "
+                         "independence = different paths, or same path / ancestor directory without a write); other scenarios: every interleaving up to the scenario's preemption "
+                         "bound, or (bound 'None') every interleaving by brute force; the reduction is cross-checked in every run against brute force on the short pairs "
+                         "(coverage.reduction_validated_against_brute_force); one evaluation = one complete schedule executed on the real code; distinct = distinct schedules; "
+                         "non-trivial: arguments are forced to collide (same key, identical content, sibling index/content directories, reader/remover of the thing being written)",
+                    technique="stateless model checking of the implementation under a ptrace scheduler (fsx): unbounded exploration with sleep-set partial-order reduction plus preemption-bounded exhaustive enumeration, serialisability oracle against the dictionary model",
+                    assumptions=["one file-system system call is the atomic step (the property's own granularity)", "clear and remove_fully are excluded by the property", "the independence relation of the reduction is only used between separate processes (threads of one process share memory and are explored by bounded enumeration only)",
                                  "schedule replay is checked: a prefix that does not reproduce its trace aborts the run as a machinery error"],
                     seed=seed, capped=capped, jobs_done=agg["evals"], jobs_total=agg["evals"], exhaustive=not capped)
